@@ -63,7 +63,7 @@ def make(case, fmap=None, idmap=None, namemap=None, order=None):
     return total
 
 
-def same(a, b, rtol=1e-7, scale_err=1.0, what=''):
+def same(a, b, rtol=1e-7, scale_err=1.0, what='', exact_window=False):
     """compare two analysis dicts; returns (diffs, illcond)"""
     if ('exc' in a) or ('exc' in b):
         if ('exc' in a) != ('exc' in b):
@@ -76,6 +76,8 @@ def same(a, b, rtol=1e-7, scale_err=1.0, what=''):
     for x, y in zip(ea, eb):
         u, v = a['ens'][x], b['ens'][y]
         if u['windowsize'] != v['windowsize']:
+            if exact_window:     # the transformation is exact in floating point: no rounding can move the window
+                return ['%s: %s windowsize %r vs %r' % (what, x, u['windowsize'], v['windowsize'])], False
             return [], True   # decided by a float comparison; handled by margin rule in C02
         for k in KEYS:
             s = scale_err if 'value' in k else 1.0
@@ -149,7 +151,8 @@ def check_case(ctx, case):
         other = base
     else:
         other = base
-    d, ill = same(base, other, scale_err=scale_err, what=t)
+    # multiplying by a power of two, relabelling configurations and renaming replicas change no rounding
+    d, ill = same(base, other, scale_err=scale_err, what=t, exact_window=t in ('mult', 'shift', 'scale', 'rename'))
     if ill:
         ctx.illcond += 1
     elif d:
@@ -373,7 +376,7 @@ def gen_case(ctx):
     if t == 'addconst':
         tr['c'] = rng.choice([1.0, -4.0, 16.0])
     if t == 'mult':
-        tr['c'] = rng.choice([2.0, -0.5, 8.0, -4.0])
+        tr['c'] = rng.choice([2.0, -0.5, 8.0, -4.0, 2.0 ** -50, -2.0 ** -60, 2.0 ** -100, 2.0 ** 80, -2.0 ** -200])
     c['transform'] = tr
     c['kind'] = 'transform'
     return c
